@@ -337,6 +337,16 @@ func (e *Enc) heap(name, sort string) string {
 	return name
 }
 
+// exitedHeap: the flag "loop n was left through its header's exit edge" (false at function entry)
+func (e *Enc) exitedHeap(n int) string {
+	name := fmt.Sprintf("G$exited$%d", n)
+	if _, ok := e.heapSort[name]; !ok {
+		e.heap(name, "Bool")
+		e.assume(not(name + "!0"))
+	}
+	return name
+}
+
 func (e *Enc) fieldHeap(structT types.Type, i int) string {
 	st, _ := isStruct(structT)
 	name := "F$" + structName(structT) + "$" + fieldName(st, i)
